@@ -910,3 +910,85 @@ def rule_closure_state(ck, facts, R):
         else:
             ck.bad(R, k2, "the WASM generator's arm for %s allocates a closure and does not emit a call of `%s`: the host keeps the state of whatever closure used that address before" % (v, rn[0]), ti[0].where(ti[0].term(tb)))
     ck.floor(R, "closure_creating_arms", n, 2)
+
+
+def rule_array_index_rust(ck, facts, R):
+    """the generated Rust program's array index vs the VM's (the generated source is a value of the generator)"""
+    from .. import roles
+    from ..rules import rustexpr
+
+    ck.rule(R + " (array index, generated Rust)", "the statement `let index = …;` that the Rust code generator writes into the generated program for array element access (a string constant of the generator, parsed and evaluated as a small Rust expression: if/else, casts with Rust's saturating float→int semantics, clamp, is_finite) selects the same element as the VM's GetArrayElem/SetArrayElem arms on NaN, ±inf, negative, fractional and huge indices")
+    vd = roles.vm_dispatch(facts)
+    lang = facts.crate("mimium_lang")
+    if vd is None:
+        return
+    lines = {}
+    for f in lang.fns:
+        if "::compiler::rustgen" not in f.path or f.kind == "promoted":
+            continue
+        for g in [f]:
+            for b, blk in enumerate(g.bb):
+                if blk["c"]:
+                    continue
+                ops = []
+                for st in blk["s"]:
+                    if st[KIND] == "a" and st[5][0] == "use" and st[5][1][0] == "c":
+                        ops.append(st[5][1])
+                t = blk["t"]
+                if t[KIND] == "call":
+                    ops.extend(a for a in t[5] if a[0] == "c")
+                for o in ops:
+                    if o[1] == "s" and isinstance(o[2], str) and o[2].strip().startswith("let index ="):
+                        lines.setdefault(o[2].strip(), g)
+    # promoted constants hold most literals
+    for f in lang.fns:
+        if f.kind == "promoted" and "::compiler::rustgen" in f.path:
+            for _, st in f.all_stmts():
+                if st[KIND] == "a" and st[5][0] == "use" and st[5][1][0] == "c" and st[5][1][1] == "s" and st[5][1][2].strip().startswith("let index ="):
+                    lines.setdefault(st[5][1][2].strip(), f)
+    ck.require(R, len(lines) >= 1, "anchor|rust-array-index", "the Rust generator's `let index = …` line was not found among its string constants")
+    if not lines:
+        return
+    vm_t = {}
+    for arm in ("GetArrayElem", "SetArrayElem"):
+        if arm not in vd.primary_handled():
+            continue
+        sx = SymEx(vd.fn, payload_place=vd.primary.place, max_paths=64, facts=facts)
+        try:
+            paths = sx.run(vd.arm_target(arm), stop_blocks=[vd.primary.block])
+        except PathLimit:
+            paths = sx.paths
+        cand = [l for l, nme in vd.fn.dbg_names().items() if nme == "index_int"]
+        tt = [(p.conds, p.env[l]) for p in paths for l in cand if l in p.env and p.end in ("stop", "loop")]
+        if tt:
+            vm_t[arm] = tt
+    ck.require(R, "GetArrayElem" in vm_t, "anchor|vm-array-index", "the VM's index template (GetArrayElem arm) could not be extracted")
+    if "GetArrayElem" not in vm_t:
+        return
+    for i, (line, g) in enumerate(sorted(lines.items())):
+        key = "rust-array-index|%d" % i if len(lines) > 1 else "rust-array-index"
+        body = line[len("let index ="):].strip().rstrip(";")
+        try:
+            tree = rustexpr.parse(body)
+        except rustexpr.ParseError as e:
+            ck.bad(R, key, "the generated `let index = …` expression could not be parsed by the Rust-expression model (%s): failing closed" % e, g.where())
+            continue
+        bad = None
+        pts = 0
+        for n in (1, 3, 8):
+            for x in (float("nan"), float("inf"), float("-inf"), -1.0, -0.5, 0.0, 0.5, 1.0, 2.7, 7.0, 8.0, 1e30, -1e30):
+                pts += 1
+                vals = [v for v in (_vm_index_eval(e, c, x, n) for c, e in vm_t["GetArrayElem"]) if v is not None]
+                if not vals:
+                    continue
+                try:
+                    r = rustexpr.ev(tree, {"len": n, "index_value": x})
+                except Exception as e:  # unknown identifier etc.
+                    bad = bad or (x, n, vals[0], "unevaluable (%s)" % e)
+                    continue
+                if r != vals[0]:
+                    bad = bad or (x, n, vals[0], r)
+        if bad:
+            ck.bad(R, key, "array index %r into an array of %d elements selects element %s on the VM and element %s in the generated Rust program (`%s`): the transpiled program reads/writes a different element" % (bad[0], bad[1], bad[2], bad[3], line[:110]), g.where())
+        else:
+            ck.ok(R, key, {"line": line[:120], "points": pts})
